@@ -8,6 +8,10 @@ CHECKS = {
    technique="bounded-exhaustive enumeration of generated struct types x boundary values x byte-string mutations on the real tls codec, compared with an independent reference codec",
    text="Every struct type of 1..3 (thorough: 4) fields over a 43-kind alphabet, every boundary value, and every byte string of the mutation family is pushed through tls.Marshal/Unmarshal and an independent AST-based codec; any disagreement in accept set, value, remainder or re-encoding, any panic, and any length-bomb allocation is a violation. Exhaustive inside the stated alphabet, silent outside it.",
    note="Trusts ref/tlsref (written from RFC 5246 s4 and the documented tag grammar). Zero-width vector elements and maxlen:0 are not generated. Allocation is a coarse budget on length-bomb inputs only."),
+ "C13": dict(level="exploration", engine="gate", design="5/C13",
+   technique="stateless deviation-bounded DFS over all orders/contents of server answers, cancellation instants and waits, on the real retry loop under virtual time (synctest), plus a free-running race-detector pass",
+   text="Every choice vector up to the deviation bound (quick 4 / 3 for two callers, thorough 5 / 4) over a 15-answer menu, 4 cancellation instants, slow-server steps and answer orders, for 1-2 callers sharing one JSON client / LogClient with cancellable and deadline contexts; each execution runs to completion in a bubble and its recorded request/answer/return timeline is checked against the statement's bounds (first parsable 200 wins, only transport errors / bad 200 bodies / 408 / 429 / 503 are retried, never earlier than Retry-After, never later than 128 s + jitter unless asked, no added delay after 408, prompt context error, converted POST never a success).",
+   note="Jitter (math/rand) is not owned; oracles use only the stated bounds. Interleavings are at HTTP round-trip granularity; the shared back-off state is additionally run free under the race detector (not exhaustive). Trusts testing/synctest's virtual clock."),
 }
 PENDING_REASON = "check not built yet in this round (design in DESIGN.md section 5); not claimed until its machinery exists and passes on the unchanged tree"
 checks, na = [], []
